@@ -150,6 +150,7 @@ REQUIRED_COUNTERS_QUICK = [
     "outcome_msg_pos", "outcome_wire_pos", "outcome_get_pos", "outcome_msg_fail", "outcome_wire_fail",
     "outcome_msg_cut", "outcome_wire_cut", "outcome_msg_miss", "outcome_wire_miss",
     "wire_served_fast", "wire_served_failure", "wire_served_cut", "probes_chase",
+    "purge_collision_victims",
 ]
 REQUIRED_COUNTERS_THOROUGH = REQUIRED_COUNTERS_QUICK + ["op_forgecut", "wire_served_chase", "outcome_chase_pos"]
 
@@ -207,8 +208,11 @@ def run(ctx, replay_path):
         "non-canonical spellings of a name (raw bytes >= 0x80, needless escapes) are keyed apart by Key vs KeyWire: "
         "counted as noncanonical_keyed_apart (a miss, never a wrong hit), not judged",
         "byte-level key agreement (Key/KeyWire/KeyWithPrefix/KeyWireWithPrefix) is sampled over label bytes 0..255, not enumerated",
-        "purge: an entry evicted because it sits under the purged question's own key (collision victim) is accepted; "
-        "any other removal of a different question's entry is judged over-broad",
+        "purge: the entry of a DIFFERENT question sitting under the purged question's own key (collision victim) must "
+        "survive the purge ('... purge - and even when two different questions collide on the 64-bit cache key, in which "
+        "case the entry behaves as a miss'): judged directly on the store (LookupByKey under the real key before/after), "
+        "digest purge-collision/*; CacheKey.tla's Purge is the verified removal (PurgeByKey = FALSE), the as-built removal "
+        "by key is the negative twin MC_PurgeByKey.cfg; any other removal of a different question's entry is judged over-broad",
         "decoded alias chase asks its sub-question in class IN (dns.Msg.SetQuestion); class is judged strictly only on the wire chase",
     ]
     if replay_path:
@@ -240,6 +244,12 @@ def run(ctx, replay_path):
         ctx.tlc(MOD, "MC_CacheKey.tla", "MC_Quick.cfg", workers=6, timeout=900, heap="6g")
         # the replay configs' obs bookkeeping is faithful (obs = the served hits, each satisfying the property)
         ctx.tlc(MOD, "MC_CacheKey.tla", "MC_TinyObs.cfg", workers=4, timeout=600, heap="4g")
+        # negative twin of PurgeExact: Store.Purge emptying the purged question's two shared slots BY KEY
+        # (as built before hooks/fix-c03-purge-collision.patch) evicts a colliding entry of another question
+        neg = ctx.tlc(MOD, "MC_CacheKey.tla", "MC_PurgeByKey.cfg", workers=4, timeout=600, heap="4g",
+                      must_pass=False, tag="negative-twin", count=False)
+        if "PurgeExact" not in (neg.violated or "") and "Action property PurgeExact is violated" not in neg.out:
+            raise vf.MachineryError("negative twin MC_PurgeByKey.cfg did not violate PurgeExact (violated=%s)" % neg.violated)
     if thorough and not skip_mc:
         ctx.tlc(MOD, "MC_CacheKey.tla", "MC_Pairs4.cfg", workers=8, timeout=2400, heap="12g")
         ctx.tlc(MOD, "MC_CacheKey.tla", "MC_Triples.cfg", workers=8, timeout=2400, heap="12g")
